@@ -821,8 +821,9 @@ def _bounded_by_facts(x, ubs, limit):
 
 def narrowing_casts(an, rep):
     """N6: on the encode side a length is narrowed only by a checked conversion."""
-    R = rep.rule("N6", "no `as` cast from usize/u64 to a narrower integer whose operand derives from len()/size_hint() "
-                       "in encode-reachable code; try_into()? (-> LengthTooLarge) is the accepted idiom")
+    R = rep.rule("N6", "no `as` cast of an unsigned value derived from len()/size_hint() into a type that cannot hold every "
+                       "value of the source type (usize as u32, u32 as i32, ...) in encode-reachable code; try_into()? "
+                       "(-> LengthTooLarge) into the very type that is written is the accepted idiom")
     core, bodies = _encode_bodies(an)
     n = checked = 0
     facts_of = {}
@@ -836,12 +837,16 @@ def narrowing_casts(an, rep):
                 if st["k"] != "assign" or st["rv"]["rv"] != "cast" or st["rv"]["kind"] != "IntToInt":
                     continue
                 fr, to = st["rv"]["from"]["s"], st["rv"]["to"]["s"]
-                if fr not in ("usize", "u64") or to not in ("u32", "i32", "u16", "i16", "u8", "i8"):
+                if fr not in guards.INT_RANGES or to not in guards.INT_RANGES or fr in ("bool",) or to in ("bool",):
                     continue
+                fr_r, tr = guards.INT_RANGES[fr], guards.INT_RANGES[to]
+                if fr_r[0] >= tr[0] and fr_r[1] <= tr[1]:
+                    continue                 # widening: every value of the source type fits
+                if fr_r[0] < 0:
+                    continue                 # signed sources are N3's business (decode side) / zig-zag arithmetic
                 x = ex.operand(st["rv"]["x"])
                 n += 1
                 r = guards.rng(x)
-                tr = guards.INT_RANGES[to]
                 if r and r[1] <= tr[1]:
                     R.ok()
                     continue
